@@ -850,6 +850,7 @@ class Interp:
         out.loops = {k: max(s1.loops.get(k, 0), s2.loops.get(k, 0)) for k in set(s1.loops) | set(s2.loops)}
         out.notes = s1.notes
         out.lin = tuple(f for f in s1.lin if any(f[0] == g[0] and f[1:] == g[1:] for g in s2.lin))
+        out.tested = s1.tested | s2.tested
         # intervals of shared vids: hull
         iv2 = s2.iv
         for v, i1 in s1.iv.items():
@@ -1392,6 +1393,8 @@ class Interp:
         vid, tn = d[1], d[2]
         lo, hi = D.get_iv(st, vid)
         dinfo = st.discr.get(vid)
+        if lo != hi:
+            st.tested = st.tested | ({('discr', dinfo[1])} if dinfo is not None else {vid})
         cases = [(self.signed_case(v, tn), tgt) for v, tgt in t['cases']]
         for val, tgt in cases:
             if not (lo <= val <= hi):
